@@ -87,7 +87,7 @@ def gen_fa(rng, kind=None, max_states=5, max_symbols=3, max_trans=9, plain_symbo
             symmode = "str"
     case = {"kind": kind, "valmode": valmode, "symmode": symmode, "states": states,
             "symbols": symbols, "hash": hashes, "hashmode": mode, "trans": trans, "starts": starts,
-            "finals": finals, "ctor": rng.chance(0.25), "ctor_all": rng.chance(0.5), "ctor_tf": rng.chance(0.12),
+            "finals": finals, "ctor": rng.chance(0.25), "ctor_all": rng.chance(0.5), "ctor_tf": rng.chance(0.12), "words_as_symbols": rng.chance(0.3),
             "extra_symbols": ([rng.pick(["x", "y"])] if rng.chance(0.12) else []),
             "extra_states": []}
     if rng.chance(0.18):
@@ -255,6 +255,9 @@ def _state(v):
 def word_values(case, word_keys):
     """map a word of symbol keys back to user values"""
     back = {ykey(case, s): yval(case, s) for s in case["symbols"] + case.get("extra_symbols", []) + [FOREIGN]}
+    if case.get("words_as_symbols"):
+        from pyformlang.finite_automaton import Symbol
+        return [Symbol(back[k]) for k in word_keys]       # the word given as Symbol objects instead of raw values
     return [back[k] for k in word_keys]
 
 
